@@ -1415,6 +1415,25 @@ def gen_eager_case(rng):
     return {"loop": loop, "nlocks": 1, "nevents": 0, "workers": ws, "env": env}
 
 
+def gen_stale_key_case(rng):
+    """Directed shape for C11 (priority loop, history dependent, one cancel): chain X -> L0 [W] -> L1 [H]; the
+    far waiter X is cancelled while waiting, so everything it lent falls back (W's key on L1 included).
+    Later, in one instant, H becomes runnable, a medium bystander M becomes runnable, and Y - more urgent
+    than H and M, less urgent than X was - arrives on L1 (behind the place W had while it inherited from X).
+    H must be promoted to Y's priority at once and run before M."""
+    mk = lambda pri, script: {"kind": "P", "pri": pri, "script": script}  # noqa: E731
+    H = mk(rng.choice(["10", "LOW", "7"]), [["acq", 1], ["wait", 0]] + [["sleep"]] * rng.randint(0, 1) + [["rel"]])
+    W = mk(rng.choice(["5", "3", "4"]), [["wait", 4], ["acq", 0], ["acq", 1], ["rel"], ["rel"]])
+    X = mk(rng.choice(["-5", "HIGH", "-6"]), [["wait", 1], ["acq", 0], ["rel"]])
+    Y = mk(rng.choice(["-3", "-2", "-5/2"]), [["wait", 2], ["acq", 1], ["rel"]])
+    M = mk(rng.choice(["0", "NORMAL", "-1", "1"]), [["wait", 3]] + [["sleep"]] * rng.randint(0, 2))
+    ws = [H, W, X, Y, M]
+    rng.shuffle(ws)
+    xi = ws.index(X)
+    env = [[5, "set", 4], [6, "set", 1], [7, "cancel", xi]] + [[8, "set", e] for e in rng.sample([0, 2, 3], 3)]
+    return {"loop": "prio", "nlocks": 2, "nevents": 5, "workers": ws, "env": env}
+
+
 def gen_tie_rekey_case(rng):
     """Directed shape for C12 (stock loop): a re-key that ends in a tie.  G holds lock 1; w1 holds lock 0 and
     is queued on lock 1; w2 arrives on lock 1 after w1.  Variant a: the urgent U, whose priority equals
@@ -1467,7 +1486,7 @@ def grid_cases(prop):
         "C11": [(lambda: gen_inherit_case(rng, "C11"), 6), (lambda: gen_chain_contended_case(rng, "C11"), 5),
                 (lambda: gen_headkey_case(rng), 4), (lambda: gen_fallback_case(rng), 5), (lambda: gen_woken_holder_case(rng), 8),
                 (lambda: gen_chain_case(rng), 6), (lambda: gen_raising_callback_case(rng), 6),
-                (lambda: gen_case(rng, "C11"), 8)],
+                (lambda: gen_case(rng, "C11"), 8), (lambda: gen_stale_key_case(rng), 4)],
         "C12": [(lambda: gen_inherit_case(rng, "C12"), 8), (lambda: gen_chain_contended_case(rng, "C12"), 8),
                 (lambda: gen_reuse_case(rng), 5), (lambda: gen_between_owners_case(rng), 4),
                 (lambda: gen_chain_giveup_case(rng), 4), (lambda: gen_two_episodes_case(rng), 4),
